@@ -790,6 +790,15 @@ func (s *Server) startIPCPNegotiation(session *Session) {
 
 // handleIPCP handles IPCP packets
 func (s *Server) handleIPCP(session *Session, data []byte) {
+	// The network-layer phase starts only after successful authentication
+	// (RFC 1661 3.5/3.7): NCP packets received before are silently discarded
+	if !session.Authenticated {
+		s.logger.Debug("IPCP packet before authentication discarded",
+			zap.Uint16("session_id", session.ID),
+		)
+		return
+	}
+
 	pkt, err := ParseLCPPacket(data)
 	if err != nil {
 		return
